@@ -311,6 +311,11 @@ pub trait Prop: Sync {
         None
     }
     /// A run that observed none of these outcome classes is vacuous (machinery failure).
+    /// number of times an internal cap (e.g. a per-start state budget) cut the exploration short; non-zero makes the run
+    /// report exhaustive=false
+    fn cap_hits(&self) -> u64 {
+        0
+    }
     fn required_outcomes(&self) -> Vec<&'static str> {
         vec![]
     }
@@ -651,8 +656,8 @@ pub fn run_prop<P: Prop>(p: &P, cfg: &RunCfg) -> i32 {
         &merged,
         t0,
         violations,
-        !stopped,
-        json!({"known_findings_hit": known_counts}),
+        !stopped && p.cap_hits() == 0,
+        json!({"known_findings_hit": known_counts, "cap_hits": p.cap_hits()}),
     );
     println!(
         "{} tier={} evaluations={} nontrivial={} violations={} known_cores={} exhaustive={} wall={:.1}s",
@@ -662,7 +667,7 @@ pub fn run_prop<P: Prop>(p: &P, cfg: &RunCfg) -> i32 {
         p.distinct_override().unwrap_or(merged.nontrivial),
         violations,
         known_counts.len(),
-        !stopped,
+        !stopped && p.cap_hits() == 0,
         t0.elapsed().as_secs_f64()
     );
     exit
